@@ -1,5 +1,7 @@
 """C20 - passwords never reach the logs."""
 
+import asyncio
+import logging
 import random
 
 from .. import boot  # noqa: F401
@@ -30,7 +32,8 @@ ALPHA = "abcdefghijklmnopqrstuvwxyzABCDEFGHIJKLMNOPQRSTUVWXYZ0123456789"
 SPECIALS = [" ", "  ", "%s", "%d", "%(x)s", "{}", "{0}", "\\", "\\n", "\"", "'", ";", "=", "-", "*", "***", "ü", "ß", "пароль", "密", "😀", "\t",
             ":", "@", "/", "..", "PASS ", "pass", "230", "%", "%%"]
 SCENARIOS = ["client_ok", "client_bad", "raw_PASS_ok", "raw_pass_ok", "raw_PaSs_bad", "raw_out_of_sequence", "raw_relogin",
-             "raw_user_limit", "raw_server_limit", "raw_errors_after_login", "raw_cut_in_pass", "client_ok_ops"]
+             "raw_user_limit", "raw_server_limit", "raw_errors_after_login", "raw_cut_in_pass", "client_ok_ops", "raw_slow_manager",
+             "raw_failing_manager", "raw_close_while_logged_in"]
 
 
 def gen_password(rng):
@@ -71,6 +74,17 @@ async def scenario(net, hyg, name, password):
     stored = password if not name.endswith("_bad") else password + "X"
     users = [aioftp.User("alice", stored, base_path="/", **({"maximum_connections": 1} if name == "raw_user_limit" else {})),
              aioftp.User("bob", None, base_path="/")]
+    if name in ("raw_slow_manager", "raw_failing_manager"):
+        # a user manager of the documented kind: get_user/authenticate decorated with with_timeout, timeout from the base class
+        class Manager(aioftp.MemoryUserManager):
+            @aioftp.with_timeout
+            async def authenticate(self, user, password):
+                if name == "raw_slow_manager":
+                    await asyncio.sleep(1.0)
+                else:
+                    raise RuntimeError("directory service unreachable")
+                return await super().authenticate(user, password)
+        users = Manager(users, timeout=0.2)
     w = W.World(net, users=users, **({"maximum_connections": 1} if name == "raw_server_limit" else {}))
     await w.start()
     outcome = []
@@ -118,6 +132,21 @@ async def scenario(net, hyg, name, password):
             p.send_raw(b"CWD \xff\xfe\r\n") if hasattr(p, "send_raw") else p.writer.write(b"CWD \xff\xfe\r\n")
             r = await p.read_reply(wait=2)
             outcome.append(r.code if r not in (None, "EOF") else str(r))
+            p.cut("fin")
+        elif name in ("raw_slow_manager", "raw_failing_manager"):
+            p = RawPeer(net, 2121)
+            await p.connect()
+            outcome.append((await p.cmd("USER alice")).code)
+            r = await p.cmd(f"PASS {password}", wait=5)
+            outcome.append(r.code if r not in (None, "EOF") else str(r))
+            p.cut("fin")
+        elif name == "raw_close_while_logged_in":
+            p = RawPeer(net, 2121)
+            await p.connect()
+            outcome.append((await p.cmd("USER alice")).code)
+            outcome.append((await p.cmd(f"PASS {password}")).code)
+            outcome.append((await p.cmd("PWD")).code)
+            await w.stop()          # Server.close() with the password session still connected
             p.cut("fin")
         elif name == "raw_cut_in_pass":
             p = RawPeer(net, 2121)
@@ -183,8 +212,14 @@ def run_scenario(name, password, seed):
         except Exception as e:
             msg = f"<unformattable {r.msg!r} {r.args!r} {e!r}>"
         stream.append((r.name, r.levelname, msg))
+        tb = ""
+        if r.exc_info:
+            try:
+                tb = logging.Formatter().formatException(r.exc_info)
+            except Exception:
+                tb = ""
         texts.append(msg + " | " + repr(r.msg) + " | " + repr(r.args) + " | " + (r.exc_text or "") + " | " +
-                     (repr(r.exc_info[1]) if r.exc_info else ""))
+                     (repr(r.exc_info[1]) if r.exc_info else "") + " | " + tb)
     return res, (stream, texts), info
 
 
